@@ -361,7 +361,7 @@ def determinism_runs(run):
             for i in range(n):
                 d = os.path.join(run.work, "det", "%s-%d-%d" % (os.path.basename(g), len(flags), i))
                 rc, o = run_gocc(run, gocc, g, flags, d, env={"GOMAXPROCS": str(1 + (i % 4) * 5)})
-                cur = (rc, tree_digest(d), o if "conflict" in o.lower() else "")
+                cur = (rc, tree_digest(d), "\n".join(l for l in o.split("\n") if "conflict" in l.lower()))
                 cases += 1
                 if ref is None:
                     ref = cur
@@ -926,6 +926,9 @@ def c19_markdown(run):
         rc, o = C.sh([gocc, "-a", name], cwd=d, timeout=60)
         os.remove(os.path.join(d, name))
         o = re.sub(r"expected one of:.*", "expected one of: <set>", o)
+        # the ORDER of independent warnings follows a map iteration in ast.consistent and is not part of C19 (nor of C11,
+        # which is about packages, status and conflict count): diagnostics are compared as a multiset of lines
+        o = "\n".join(sorted(o.split("\n")))
         return rc, o, tree_digest(d)
 
     prose = ["# Grammar — naïve café “quoted” prose\n", "Some *text* with ünïcode and a tab\there.\n", "\n"]
